@@ -72,9 +72,8 @@ def writeChunks (t : Tier) (c : SetCmd) (token : Bytes) (dataSize : Nat) : Nat ‚
 
 /-- `handleSetCommon` for Set / Add / Replace. -/
 def setCommon (t : Tier) (now : Nat) (k : SetKind) (c : SetCmd) : Prog Œµ (HRes Unit) :=
-  let (exp, expired) := Gen.exptime (now : Int) (BitVec.ofNat 32 c.exptime)
-  if expired then pure (.ok ())
-  else do
+  let (exp, _) := Gen.exptime (now : Int) (BitVec.ofNat 32 c.exptime)
+  do
     let (dataSize, _) := sizes c.key.length
     let numChunks := (Gen.numChunksExpr (c.data.length : Int) (BitVec.ofNat 32 dataSize)).toNat
     let token ‚Üê Prog.token
